@@ -51,6 +51,10 @@ def run(rep, tier, driver):
         if o.get("counts") != o["spec_counts"] or o.get("rings") != o["spec_rings"]:
             rep.violation("input", {"iupac": c["iupac"]}, {"atoms": o.get("counts"), "rings": o.get("rings"), "smiles": o["smiles"]},
                           {"atoms": o["spec_counts"], "rings": o["spec_rings"], "residues": o["n"]}, key="balance:" + c["iupac"])
+    # tie of the Lean tree theorems (C05_tree_atoms, C05_tree_rings) to the code: the whole-tree certificate on the strings observed
+    # inside the real merge_int of these glycans
+    import mergex
+    mergex.run(rep, tier, driver, [c["iupac"] for c, o in zip(cases, outs) if o.get("smiles")][: (150 if tier == "quick" else 3000)], wellformed=True)
 
 
 def replay(body):
